@@ -455,3 +455,233 @@ Proof.
       * apply val_of_zero_iff in E. rewrite E. cbn [negb]. rewrite rev_involutive. reflexivity.
       * destruct (forallb negb t) eqn:F; [apply val_of_zero_iff in F; contradiction|]. reflexivity.
 Qed.
+
+(* ================================================================== *)
+(* Consequences of the specification                                   *)
+(* ================================================================== *)
+Lemma forallb_negb_repeat k : forallb negb (repeat false k) = true.
+Proof. induction k; cbn; auto. Qed.
+
+Lemma flat_map_bits_length w l : length (flat_map (bits_of w) l) = (w * length l)%nat.
+Proof.
+  induction l as [|v l IH]; cbn [flat_map length]; [lia|].
+  rewrite app_length, bits_of_length, IH. lia.
+Qed.
+
+Lemma Forall_bits_of_length w l : Forall (fun g => length g = w) (map (bits_of w) l).
+Proof. apply Forall_forall. intros g Hg. apply in_map_iff in Hg as (v & <- & _). apply bits_of_length. Qed.
+
+Lemma concat_uniform_inj w (a b : list (list bool)) : (1 <= w)%nat ->
+  Forall (fun g => length g = w) a -> Forall (fun g => length g = w) b ->
+  concat a = concat b -> a = b.
+Proof.
+  intros Hw Ha Hb E.
+  pose proof (groups_unique w Hw a (length (concat a ++ [])) [] Ha ltac:(cbn; lia) ltac:(lia)) as G1.
+  pose proof (groups_unique w Hw b (length (concat a ++ [])) [] Hb ltac:(cbn; lia) ltac:(rewrite E; lia)) as G2.
+  rewrite E in G1 at 2. rewrite G1 in G2. inversion G2. reflexivity.
+Qed.
+
+(* pad = true: the bit stream, completed with fewer than w zero bits, is cut exactly *)
+Lemma regroup_core_pad data f w : (1 <= w)%nat ->
+  exists gs Z,
+    regroup_core data f w true = Ok (map val_of gs) /\
+    flat_map (bits_of f) data ++ Z = concat gs /\
+    Forall (fun g => length g = w) gs /\
+    Z = repeat false (length Z) /\ (length Z < w)%nat.
+Proof.
+  intros Hw. unfold regroup_core.
+  set (bits := flat_map (bits_of f) data).
+  destruct (groups (length bits) w bits) as [gs tl] eqn:G.
+  apply groups_sound in G as (E & Hgs & Htl); [|lia|lia].
+  destruct tl as [|b tl].
+  - exists gs, []. rewrite !app_nil_r in *. repeat split; auto.
+  - set (t := b :: tl) in *.
+    assert (Ht : (1 <= length t)%nat) by (subst t; cbn [length]; lia).
+    exists (gs ++ [t ++ repeat false (w - length t)]), (repeat false (w - length t)).
+    rewrite repeat_length. repeat split.
+    + rewrite map_app. cbn [map]. rewrite val_of_app, val_of_zeros, repeat_length, N.add_0_r.
+      reflexivity.
+    + rewrite concat_app. cbn [concat]. rewrite app_nil_r, E, app_assoc. reflexivity.
+    + apply Forall_app. split; [exact Hgs|]. constructor; [|constructor].
+      rewrite app_length, repeat_length. lia.
+    + lia.
+Qed.
+
+(* pad = false: accepted exactly when the rest is at most 4 zero bits *)
+Lemma regroup_core_nopad_ok data f w G Z : (1 <= w)%nat ->
+  flat_map (bits_of f) data = concat G ++ Z ->
+  Forall (fun g => length g = w) G -> (length Z < w)%nat -> (length Z <= 4)%nat ->
+  Z = repeat false (length Z) ->
+  regroup_core data f w false = Ok (map val_of G).
+Proof.
+  intros Hw E HG HZ HZ4 HZ0. unfold regroup_core. rewrite E.
+  rewrite groups_unique by (auto; lia).
+  destruct Z as [|b Z]; [reflexivity|].
+  replace (4 <? length (b :: Z))%nat with false by lia.
+  rewrite HZ0, forallb_negb_repeat. reflexivity.
+Qed.
+
+Lemma regroup_core_nopad_inv data f w d : (1 <= w)%nat ->
+  regroup_core data f w false = Ok d ->
+  exists G Z,
+    flat_map (bits_of f) data = concat G ++ Z /\
+    Forall (fun g => length g = w) G /\ (length Z < w)%nat /\ (length Z <= 4)%nat /\
+    Z = repeat false (length Z) /\ d = map val_of G.
+Proof.
+  intros Hw. unfold regroup_core.
+  set (bits := flat_map (bits_of f) data).
+  destruct (groups (length bits) w bits) as [gs tl] eqn:G.
+  apply groups_sound in G as (E & Hgs & Htl); [|lia|lia].
+  intros H. exists gs, tl. destruct tl as [|b tl].
+  - inversion H. cbn [length]. repeat split; auto; lia.
+  - set (t := b :: tl) in *.
+    destruct (Nat.ltb_spec 4 (length t)) as [H4|H4]; cbn [orb] in H; [discriminate|].
+    destruct (forallb negb t) eqn:F; cbn [negb] in H; [|discriminate].
+    inversion H. repeat split; auto. apply all_zero_repeat, F.
+Qed.
+
+Lemma Bytes_of_lt32 l : Forall (fun v => v < 32) l -> Bytes l.
+Proof. unfold Bytes. apply Forall_impl. intros; lia. Qed.
+
+Lemma Forall_val_of_lt w gs :
+  Forall (fun g => length g = w) gs -> Forall (fun v => v < 2 ^ N.of_nat w) (map val_of gs).
+Proof.
+  intros H. apply Forall_map. eapply Forall_impl; [|exact H].
+  cbn beta. intros g <-. apply val_of_lt.
+Qed.
+
+(* 8 -> 5 with padding followed by strict 5 -> 8 gives the bytes back *)
+Theorem convert_8_5_inverse d : Bytes d ->
+  exists five,
+    convert_bits d 8 5 true = Ok five /\ Forall (fun v => v < 32) five /\
+    convert_bits five 5 8 false = Ok d.
+Proof.
+  intros Hd.
+  destruct (regroup_core_pad d 8 5 ltac:(lia)) as (gs & Z & E1 & E2 & E3 & E4 & E5).
+  assert (H32 : Forall (fun v => v < 32) (map val_of gs)) by exact (Forall_val_of_lt 5 gs E3).
+  exists (map val_of gs). split; [|split].
+  - rewrite convert_bits_is_spec by exact Hd. exact E1.
+  - exact H32.
+  - rewrite convert_bits_is_spec by (apply Bytes_of_lt32, H32).
+    unfold regroup_spec. cbn [N.ltb N.compare Pos.compare Pos.compare_cont orb].
+    change (N.to_nat 5) with 5%nat. change (N.to_nat 8) with 8%nat.
+    rewrite (regroup_core_nopad_ok (map val_of gs) 5 8 (map (bits_of 8) d) Z).
+    + rewrite val_bits_of_map. f_equal. apply (map_mod_small 8). exact Hd.
+    + lia.
+    + rewrite (bits_val_of_map 5 gs E3), <- E2, flat_map_concat_map. reflexivity.
+    + apply Forall_bits_of_length.
+    + lia.
+    + lia.
+    + exact E4.
+Qed.
+
+(* whatever strict 5 -> 8 decoding accepts is the canonical 8 -> 5 encoding of its result *)
+Theorem convert_5_8_canonical five d :
+  Forall (fun v => v < 32) five ->
+  convert_bits five 5 8 false = Ok d -> convert_bits d 8 5 true = Ok five.
+Proof.
+  intros H32 H.
+  rewrite convert_bits_is_spec in H by (apply Bytes_of_lt32, H32).
+  apply (regroup_core_nopad_inv five 5 8 d ltac:(lia)) in H
+    as (G & Z & E1 & HG & HZ & HZ4 & HZ0 & ->).
+  assert (Hd : Bytes (map val_of G)) by exact (Forall_val_of_lt 8 G HG).
+  rewrite convert_bits_is_spec by exact Hd.
+  destruct (regroup_core_pad (map val_of G) 8 5 ltac:(lia)) as (gs & Z' & F1 & F2 & F3 & F4 & F5).
+  change (regroup_spec (map val_of G) 8 5 true) with (regroup_core (map val_of G) 8 5 true).
+  rewrite F1. f_equal.
+  rewrite (bits_val_of_map 8 G HG) in F2.
+  (* the two paddings have the same length, hence are equal *)
+  assert (L1 : (5 * length five = 8 * length G + length Z)%nat).
+  { rewrite <- (flat_map_bits_length 5 five), E1, app_length, (length_concat_uniform 8 G HG). reflexivity. }
+  assert (L2 : (8 * length G + length Z' = 5 * length gs)%nat).
+  { rewrite <- (length_concat_uniform 5 gs F3), <- F2, app_length, (length_concat_uniform 8 G HG). reflexivity. }
+  assert (LZ : length Z' = length Z) by lia.
+  assert (EZ : Z' = Z) by (rewrite F4, HZ0, LZ; reflexivity).
+  subst Z'. rewrite <- E1, flat_map_concat_map in F2.
+  apply (concat_uniform_inj 5) in F2; [|lia|apply Forall_bits_of_length|exact F3].
+  rewrite <- F2, val_bits_of_map. apply (map_mod_small 5). exact H32.
+Qed.
+
+(* the model has no panicking path (all shifts are by in-range amounts on uint8, no indexing) *)
+Theorem convert_bits_no_panic data fromBits toBits pad :
+  is_panic (convert_bits data fromBits toBits pad) = false.
+Proof.
+  unfold convert_bits.
+  destruct ((fromBits <? 1) || (8 <? fromBits) || (toBits <? 1) || (8 <? toBits)); [reflexivity|].
+  destruct (convert_loop fromBits toBits data 0 0 []) as [[nx fl] out].
+  destruct (pad && (0 <? fl));
+    match goal with |- context [if ?c then Err 9 else _] => destruct c end; reflexivity.
+Qed.
+
+Theorem convert_bits_rejects_range data fromBits toBits pad :
+  fromBits < 1 \/ 8 < fromBits \/ toBits < 1 \/ 8 < toBits ->
+  convert_bits data fromBits toBits pad = Err 8.
+Proof.
+  intros H. unfold convert_bits.
+  replace ((fromBits <? 1) || (8 <? fromBits) || (toBits <? 1) || (8 <? toBits)) with true by lia.
+  reflexivity.
+Qed.
+
+(* ---------- in-range sizes: the specification proper ---------- *)
+Corollary convert_bits_is_core data fromBits toBits pad :
+  1 <= fromBits <= 8 -> 1 <= toBits <= 8 -> Bytes data ->
+  convert_bits data fromBits toBits pad =
+  regroup_core data (N.to_nat fromBits) (N.to_nat toBits) pad.
+Proof.
+  intros Hf Ht Hb. rewrite convert_bits_is_spec by exact Hb. unfold regroup_spec.
+  replace ((fromBits <? 1) || (8 <? fromBits) || (toBits <? 1) || (8 <? toBits)) with false by lia.
+  reflexivity.
+Qed.
+
+(* ---------- bits above fromBits are shifted out: only v mod 2^fromBits matters ---------- *)
+Lemma regroup_core_mod data f w pad :
+  regroup_core (map (fun v => v mod 2 ^ N.of_nat f) data) f w pad = regroup_core data f w pad.
+Proof.
+  unfold regroup_core.
+  replace (flat_map (bits_of f) (map (fun v => v mod 2 ^ N.of_nat f) data))
+    with (flat_map (bits_of f) data); [reflexivity|].
+  induction data as [|v data IH]; [reflexivity|].
+  cbn [map flat_map]. rewrite IH, bits_of_mod by lia. reflexivity.
+Qed.
+
+Theorem convert_bits_high_bits_ignored data fromBits toBits pad :
+  Bytes data ->
+  convert_bits (map (fun v => v mod 2 ^ fromBits) data) fromBits toBits pad =
+  convert_bits data fromBits toBits pad.
+Proof.
+  intros Hb.
+  assert (Hb' : Bytes (map (fun v => v mod 2 ^ fromBits) data)).
+  { apply Forall_map. eapply Forall_impl; [|exact Hb]. cbn beta. intros v Hv.
+    pose proof (pow2_pos fromBits) as Hp.
+    pose proof (N.mod_le v (2 ^ fromBits) ltac:(lia)). lia. }
+  rewrite !convert_bits_is_spec by assumption. unfold regroup_spec.
+  destruct ((fromBits <? 1) || (8 <? fromBits) || (toBits <? 1) || (8 <? toBits)); [reflexivity|].
+  rewrite <- (regroup_core_mod data). rewrite N2Nat.id. reflexivity.
+Qed.
+
+(* ---------- the specification on examples (and the hypotheses are satisfiable) ---------- *)
+Example regroup_ex_pad : regroup_spec [255; 1] 8 5 true = Ok [31; 28; 0; 16].
+Proof. vm_compute. reflexivity. Qed.
+Example regroup_ex_strict : regroup_spec [31; 28; 0; 16] 5 8 false = Ok [255; 1].
+Proof. vm_compute. reflexivity. Qed.
+Example regroup_ex_long_rest : regroup_spec [0] 5 8 false = Err 9.        (* 5 zero bits left: r > 4 *)
+Proof. vm_compute. reflexivity. Qed.
+Example regroup_ex_long_rest_3 : regroup_spec [0; 0] 3 8 false = Err 9.   (* the 4 is not toBits-dependent *)
+Proof. vm_compute. reflexivity. Qed.
+Example regroup_ex_nonzero_rest : regroup_spec [31; 28; 0; 17] 5 8 false = Err 9.
+Proof. vm_compute. reflexivity. Qed.
+Example regroup_ex_high_bits : regroup_spec [255] 5 5 false = Ok [31].
+Proof. vm_compute. reflexivity. Qed.
+Example convert_ex_pad : convert_bits [255; 1] 8 5 true = Ok [31; 28; 0; 16].
+Proof. vm_compute. reflexivity. Qed.
+Example convert_ex_inverse :
+  Bytes [255; 1] /\ Forall (fun v => v < 32) [31; 28; 0; 16] /\
+  convert_bits [31; 28; 0; 16] 5 8 false = Ok [255; 1].
+Proof. split; [|split]; [repeat constructor; lia | repeat constructor; lia | vm_compute; reflexivity]. Qed.
+
+Print Assumptions convert_bits_is_spec.
+Print Assumptions convert_8_5_inverse.
+Print Assumptions convert_5_8_canonical.
+Print Assumptions convert_bits_no_panic.
+Print Assumptions convert_bits_rejects_range.
+Print Assumptions convert_bits_high_bits_ignored.
